@@ -50,6 +50,17 @@ Theorem C12_tick_appends_events : forall m n s a,
 Proof. exact ticks_ext. Qed.
 Print Assumptions C12_tick_appends_events.
 
+(* the device events form a chain: what one more command adds is appended, and
+   the tick counter never decreases *)
+Theorem C12_events_chain : forall m di sc fuel h c,
+  loads_clean m = true ->
+  let d := session m di sc fuel h in
+  let d' := session m di sc fuel (h ++ [c]) in
+  d_status d' = Live ->
+  mn (d_m d) <= mn (d_m d') /\ exists l, events (d_st d') = l ++ events (d_st d).
+Proof. exact events_chain. Qed.
+Print Assumptions C12_events_chain.
+
 (* ... and, as long as the debugger never drove a finished machine, they are a
    prefix of the free run's events, reached after no more ticks than the free
    run makes.  _partial: the guard [mres = false] is needed on the unchanged
@@ -108,6 +119,19 @@ Theorem C12_breakpoint_stops_only_at_bp : forall m di fuel d,
 Proof. exact breakpoint_stops_only_at_bp. Qed.
 Print Assumptions C12_breakpoint_stops_only_at_bp.
 
+(* ... and it stops at the FIRST such tick, each time: no state strictly
+   between the entry of run() and the state it returns with sits on a user
+   breakpoint (or is halted).  run() starts from the machine state with
+   halted/halt_reason re-initialised. *)
+Theorem C12_continue_stops_at_first_breakpoint : forall m di fuel d,
+  d_status d = Live -> blocked (d_st d) = false ->
+  let d' := exec_cmd m di fuel d CContinue in
+  forall k sk, (0 < k)%nat -> Z.of_nat k < mn (d_m d') - mn (d_m d) ->
+  ticks m k (set_halt (d_st d) false H_NONE) = Some sk ->
+  user_hit (d_bps d) (pc sk) = None /\ halted sk = false.
+Proof. exact continue_first_breakpoint. Qed.
+Print Assumptions C12_continue_stops_at_first_breakpoint.
+
 (* break L adds the start address of the first statement, in source order, at
    or after line L that has at least one instruction *)
 Theorem C12_break_resolves_line : forall di l r,
@@ -158,6 +182,22 @@ Theorem C12_step_progress_partial : forall m di fuel d stmt,
   exists r, find_nonempty m di (pc (d_st d')) = Ok (Some r) /\ stmt_neq (Some r) stmt = true.
 Proof. exact step_progress. Qed.
 Print Assumptions C12_step_progress_partial.
+
+(* step stops at the first instruction executed outside the statement it started
+   in: every state strictly before the stop is in no statement or in that same
+   statement - so iterating step visits the statements in execution order
+   without skipping one *)
+Theorem C12_step_stops_at_first_statement_change : forall m di fuel d stmt,
+  d_status d = Live -> blocked (d_st d) = false ->
+  find_nonempty m di (pc (d_st d)) = Ok (Some stmt) ->
+  let d' := exec_cmd m di fuel d CStep in
+  forall k sk, (0 < k)%nat -> Z.of_nat k < mn (d_m d') - mn (d_m d) ->
+  ticks m k (set_halt (d_st d) false H_NONE) = Some sk ->
+  user_hit (d_bps d) (pc sk) = None /\ halted sk = false /\
+  (find_nonempty m di (pc sk) = Ok None \/
+   exists r, find_nonempty m di (pc sk) = Ok (Some r) /\ rec_eqb r stmt = true).
+Proof. exact step_first_change. Qed.
+Print Assumptions C12_step_stops_at_first_statement_change.
 
 Theorem C12_next_progress_partial : forall m di fuel d stmt,
   d_status d = Live -> blocked (d_st d) = false ->
